@@ -455,7 +455,7 @@ func c09FloorScenario(tier string, idx int) any {
 
 var serverComponents = map[string][]string{
 	"real": {"kmipserver (Server, conn readloop/writeloop, BatchExecutor, context accessors, errors)", "ttlv.Stream and codec", "kmip, payloads", "kmipclient in end-to-end variants"},
-	"stub": {"network (simnet listener/conn)", "operation handlers and middlewares (scripted by request token)", "raw clients (scripted tasks)", "clock (synctest)", "TLS (absent)", "logger (discard)"},
+	"stub": {"network (simnet listener/conn)", "operation handlers and middlewares (scripted by request token)", "raw clients (scripted tasks)", "clock (synctest)", "TLS (simrt.TLSConn stand-in in the TLS mode of C08/C16: a handshake that blocks until the client hello arrives, honours deadlines and its context; no cryptography, no certificates)", "TCP socket options (simrt.TCPConn: SO_LINGER 0 modelled, the others accepted and ignored)", "logger (discard)"},
 }
 
 func init() {
